@@ -108,7 +108,7 @@ def find (v : V) (path : List Sc) : Res V :=
   | some r => .ok r
   | none =>
     let n := path.length
-    if (List.range' 1 (n - 1)).any (fun c => (tryFind v (path.take (n - c))).isSome) then .err
+    if (List.range' 1 n).any (fun c => (tryFind v (path.take (n - c))).isSome) then .err
     else .panic "find: Should have already errored"
 
 /-! ### runtime frames -/
